@@ -298,8 +298,9 @@ func H_C20_DBCalls() {
 func H_C20_OpenOptions() {
 	vSetup()
 	defer vCleanup()
+	nodes := []int64{math.MinInt64, -1, 0, 1, 1023, 1024, math.MaxInt64}
 	opt := Options{Dir: vDir(), EntryIdxMode: EntryIdxMode(vNondetInt()), RWMode: RWMode(vNondetInt()),
-		StartFileLoadingMode: RWMode(vNondetInt()), NodeNum: vNondetInt64(), SyncEnable: vChoose(2) == 1}
+		StartFileLoadingMode: RWMode(vNondetInt()), NodeNum: nodes[vChoose(len(nodes))], SyncEnable: vChoose(2) == 1}
 	// segment sizes around the interesting boundaries (0, negative, smaller than a header, one entry)
 	segs := []int64{math.MinInt64, -1, 0, 1, 41, 46, 64}
 	opt.SegmentSize = segs[vChoose(len(segs))]
